@@ -275,6 +275,12 @@ class CoseSecOpCtx:
                 LOGGER.error('Duplicate result IDs for index %d', tgt_ix)
                 return False
 
+        # exactly one list of results for each target
+        if len(self.sec_blk.payload.results) != len(self.sec_blk.payload.targets):
+            LOGGER.error('Have %d result lists for %d targets',
+                         len(self.sec_blk.payload.results), len(self.sec_blk.payload.targets))
+            return False
+
         return True
 
     def extract_secblk(self) -> None:
